@@ -98,6 +98,8 @@ def gen_op(rng, kind, cols, tag_pool, fixed_cols_pool):
         return ["cap", rng.choice([0, 1, 2, 3, 5])]
     if kind == "rev":
         return ["rev"]
+    if kind == "alt":
+        return ["alt"]
     if kind == "join":
         fcols = sorted(c for c in fixed_cols_pool if rng.random() < 0.5)
         shared_nonkey = [c for c in fcols if not is_key(c) and c in cols]
@@ -214,6 +216,10 @@ def to_op(spec, fixed_engine):
         from ..ext import Reverse
 
         return Reverse(), None
+    if k == "alt":
+        from ..ext import Alternate
+
+        return Alternate(), None
     if k == "join":
         ftags = [T(c) for c in spec[3]]
         frows = [dict(zip(ftags, r)) for r in spec[4]]
